@@ -515,3 +515,28 @@ Proof.
   apply (zero_interval_no_progress Z Z.lt Z.ltb Z_ltb_lt); [lia | assumption |].
   intros s [<-|[]]. exact Hlt.
 Qed.
+
+Lemma z_instance_spec : forall unit k offs fuel start end_ count o,
+  offs <> [] -> ssorted Z Z.lt offs -> (forall x y, In x offs -> In y offs -> x < y + k) ->
+  zseries unit k offs fuel start end_ count = Done o ->
+  (forall n, (fuel <= n)%nat -> o = zspec unit k offs n start end_ count) /\ ssorted Z Z.lt o.
+Proof.
+  intros unit k offs fuel start end_ count o Hne Hs Hspan H.
+  pose proof (z_chain k offs (zround unit start) Hne Hs Hspan) as Hc. split.
+  - exact (series_eq_spec Z Z.lt Z.ltb Z_ltb_lt Z.lt_trans _ _ _ fuel start end_ count o Hc H).
+  - exact (series_sorted Z Z.lt Z.ltb Z_ltb_lt Z.lt_trans _ _ _ fuel start end_ count o Hc H).
+Qed.
+
+Lemma z_instance_terminates : forall unit k offs fuel start end_ count,
+  0 < unit <= k -> offs <> [] -> ssorted Z Z.lt offs -> (forall x y, In x offs -> In y offs -> x < y + k) ->
+  (forall x, In x offs -> 0 <= x) ->
+  Z.of_nat (fuel - 1) * Z.of_nat (length offs) > Z.max count 0 ->
+  exists o, zseries unit k offs fuel start end_ count = Done o.
+Proof.
+  intros unit k offs fuel start end_ count Hk Hne Hs Hspan Hpos Hfuel.
+  pose proof (z_chain k offs (zround unit start) Hne Hs Hspan) as Hc.
+  apply (series_terminates Z Z.lt Z.ltb Z_ltb_lt Z.lt_irrefl Z.lt_trans Z_lt_total _ _ _ fuel start end_ count 1%nat Hc).
+  - intros x Hx. rewrite zinstants, zperiod in Hx. apply in_map_iff in Hx. destruct Hx as (o & <- & Ho).
+    specialize (Hpos o Ho). unfold le, zround. pose proof (Z.mod_pos_bound start unit). lia.
+  - unfold zslots. rewrite map_length. exact Hfuel.
+Qed.
